@@ -1,4 +1,5 @@
 import FloVerif.Driver.C05
+import FloVerif.Driver.C18
 /-!
 `fvdriver`: reads correspondence transcripts (`<prop> <op> <stream> <inputs…> | <impl outputs…>`) on stdin,
 evaluates the model on the same inputs and prints one `DIFF …` line per disagreement and a `SUMMARY` line.
@@ -8,6 +9,8 @@ open Driver
 def dispatch (prop op stream : String) (ins outs : List String) : List C05.Out :=
   match prop with
   | "C05" => C05.handle op stream ins outs
+  | "C18" => (C18.handle op ins outs).map fun o =>
+      { field := o.field, cmp := if o.ok then .same 0 else .diff o.msg, fbit := none }
   | _ => [{ field := "unknown-property " ++ prop, cmp := .diff "driver does not know this property", fbit := none }]
 
 def upd (m : List (String × Stat)) (k : String) (f : Stat → Stat) : List (String × Stat) :=
